@@ -228,6 +228,48 @@ def reclaim(F, R):
     dom(R, g, au, clear, 'acquire_used_offsets<slot-cleared', 'everything the vanished receiver owned is reclaimed before the connection is forgotten')
 
 
+def segment_index_mapping(F, R):
+    """remove_connection reclaims what the vanished receiver owned by walking segment_details: the (channel, segment) -> index
+    mapping and its inverse must agree, and index <-> offset use the same sample size."""
+    Z = 'iceoryx2_cal::zero_copy_connection::common::details::'
+    gs = F.fn(Z + 'SharedManagementData::get_segment_details')
+    adds = [s for s in gs.sites if s.i != 'T' and s.node[0] == 'a' and s.node[2][0] == 'bin' and s.node[2][1] == 'Add']
+    key = 'SYM-EQ::zero_copy_connection::segment-index-mapping'
+    fwd = None
+    if len(adds) == 1:
+        try:
+            fwd = core.poly(core.sym_norm((core._BIN['Add'], sym(gs, adds[0].node[2][2]), sym(gs, adds[0].node[2][3]))))
+        except core.NotPoly:
+            fwd = None
+    want = {tuple(sorted(('channel_id', 'self.number_of_segments'))): 1, ('segment_id',): 1}
+    R.ob('SYM-EQ', key + '::forward', fwd == want, 'get_segment_details index = %s ; required channel_id * number_of_segments + segment_id' % (core.poly_str(fwd) if fwd is not None else 'not analysable'), adds[0].where if adds else gs.file, gs)
+    inv = F.find_fns(r'^' + re.escape(Z) + r'Sender::<.*>::segment_id_from_index$')
+    if len(inv) != 1:
+        R.missing('Sender::segment_id_from_index')
+    else:
+        g = inv[0]
+        s_ = sym_nstr(core.sym_place(g, [0]))
+        nos = r'get\(self\.storage\)\.number_of_segments'
+        ok = bool(re.fullmatch(r'SegmentId::new\(\(index % ' + nos + r'\)\)', s_)) or bool(re.fullmatch(r'SegmentId::new\(\(index - \(\(index / ' + nos + r'\) \* ' + nos + r'\)\)\)', s_))
+        R.ob('SYM-EQ', key + '::inverse', ok, 'segment_id_from_index = %s ; required index mod number_of_segments (the inverse of channel_id * number_of_segments + segment_id)' % s_[:200], '%s:%s' % (g.file, g.line), g)
+    n = 0
+    for h in F.find_fns(r'ZeroCopySender>::acquire_used_offsets'):
+        for c in [h] + F.closures_of(h):
+            for s in c.calls(r'PointerOffset::from_offset_and_segment_id$'):
+                n += 1
+                a0, a1 = sym_nstr(sym(c, s.args[0])), sym_nstr(sym(c, s.args[1]))
+                R.ob('SYM-EQ', key + '::reclaimed-offset=index*sample_size', 'sample_size' in a0 and '*' in a0 and 'index' in a0 and 'segment_id_from_index' in a1, 'reclaimed offset = from_offset_and_segment_id(%s, %s)' % (a0[:100], a1[:60]), s.where, c)
+    R.floor('acquire_used_offsets offset reconstructions', n, 1)
+    # try_send / reclaim compute index = offset / sample_size
+    for m in ('try_send', 'reclaim'):
+        for f in F.find_fns(r'^<' + re.escape(Z) + r'Sender<.*> as iceoryx2_cal::zero_copy_connection::ZeroCopySender>::' + m + '$'):
+            divs = [s for s in f.sites if s.i != 'T' and s.node[0] == 'a' and s.node[2][0] == 'bin' and s.node[2][1] == 'Div']
+            for s in divs:
+                a, b_ = sym_nstr(sym(f, s.node[2][2])), sym_nstr(sym(f, s.node[2][3]))
+                R.ob('SYM-EQ', key + '::%s-index=offset/sample_size' % m, 'offset' in a.lower() and 'sample_size' in b_, '%s: chunk index = %s / %s' % (m, a[:80], b_[:80]), s.where, f)
+            R.ob('FLOOR', 'floor::%s::index computations' % fnkey(f), len(divs) >= 1, '%d index computations' % len(divs), f.file, f)
+
+
 def drops(F, R):
     table = [
         (r'^<iceoryx2::sample::Sample<.*> as core::ops::drop::Drop>::drop$', r'Receiver::<.*>::release_offset$', 'Sample'),
@@ -271,6 +313,7 @@ def check(F, R, tier):
     history(F, R)
     loans(F, R)
     reclaim(F, R)
+    segment_index_mapping(F, R)
     drops(F, R)
 
 
